@@ -118,8 +118,19 @@ func init() {
 		if plain {
 			n = 0
 		}
-		return map[string]interface{}{"id": "rand7-" + itoa(i), "queries": []interface{}{symList(q)}, "targets": ts,
+		v := map[string]interface{}{"id": "rand7-" + itoa(i), "queries": []interface{}{symList(q)}, "targets": ts,
 			"measure": measure, "n": n, "d": -1, "table": !plain, "threads": 1}
+		// letter case must not matter: lower-case queries, lower-case targets, soft-masked targets
+		switch rng.Intn(6) {
+		case 0:
+			v["lowq"] = true
+		case 1:
+			v["lowt"] = true
+		case 2:
+			a := rng.Intn(w)
+			v["maskt"] = []int{a, a + 1 + rng.Intn(w-a)}
+		}
+		return v
 	}
 	// C06: many near-identical targets (ties, duplicates, ambiguous and all-N targets), raw / snp
 	randGens["closest6"] = func(rng *rand.Rand, i int) map[string]interface{} {
@@ -151,8 +162,30 @@ func init() {
 			pool = append(pool, s)
 			ts[k] = symList(s)
 		}
+		if i%5 == 2 {
+			// ties on distance between targets that differ from the query at DIFFERENT sites, the later ones more complete:
+			// query = ancestor; target k = ancestor with one substitution at site k and (nt-k) sites set to N elsewhere
+			nq = 1
+			qs = []interface{}{symList(anc)}
+			if nt > w/2 {
+				nt = w / 2
+			}
+			ts = make([]interface{}, nt)
+			for k := range ts {
+				b := []byte(anc)
+				b[k] = "ACGT"[(strings.IndexByte("ACGT", b[k])+1+rng.Intn(3))%4]
+				for j := 0; j < nt-k-1; j++ {
+					b[w-1-j] = 'N'
+				}
+				ts[k] = symList(string(b))
+			}
+		}
 		measure := []string{"raw", "snp"}[rng.Intn(2)]
 		n := []int{0, 1, 2, 3, 5, 8, 40}[rng.Intn(7)]
+		if i%5 == 2 {
+			measure = "snp"
+			n = []int{0, 0, 1, 2}[rng.Intn(4)]
+		}
 		d := -1
 		if rng.Intn(3) == 0 {
 			if measure == "snp" {
